@@ -56,7 +56,7 @@ theorem AllDb.prune {s : Sys} (a : AllDb W P s) (hP : Chan.DelClosed ok P) (hu :
   unfold pruneRest
   have a1 : AllDb W P (s.touchListened app now).commit := (a.touchListened hP.same).commit
   have k1 : (s.touchListened app now).commit.db.mbKeys = s.db.mbKeys := by
-    simp only [commit_db, touchListened, modDb_db]
+    simp only [commit_db]
     exact s.db.mbKeys_map _ (fun r => by split <;> simp)
   generalize hoMb : (((s.touchListened app now).commit.db.mailboxesOfApp app).filter
     (fun r => ¬ r.updated > old)) = oldMb
@@ -71,29 +71,33 @@ theorem AllDb.prune {s : Sys} (a : AllDb W P s) (hP : Chan.DelClosed ok P) (hu :
   · dsimp only at a2 k2 ⊢
     have hkeys : s2.db.mbKeys = s.db.mbKeys := by
       have := congrArg Prod.snd k2
-      simpa [Chan.mpart, k1] using this
+      simp only [Chan.mpart] at this
+      rw [this, k1]
     have a3 : AllDb W P (s2.pruneMailboxes app now oldMb) := by
       apply AllDb.pruneMailboxes hP oldMb a2
       intro row hrow k hk hid
       rw [hkeys] at hk
       subst hoMb
-      simp only [List.mem_filter, Chan.mailboxesOfApp, commit_db, touchListened, modDb_db,
-        List.mem_map, decide_eq_true_eq, decide_not, Bool.not_eq_eq_eq_not, Bool.not_true,
+      simp only [List.mem_filter, Chan.mailboxesOfApp, commit_db, decide_eq_true_eq, decide_not, Bool.not_eq_eq_eq_not, Bool.not_true,
         decide_eq_false_iff_not] at hrow
-      obtain ⟨⟨⟨r0, hr0, hf⟩, happ⟩, hold⟩ := hrow
+      obtain ⟨⟨hrow', happ⟩, hold⟩ := hrow
+      have hrow'' : row ∈ s.db.mailboxes.map (fun r =>
+        if r.app = app ∧ s.listeners app r.id ≠ [] then { r with updated := now } else r) := hrow'
+      obtain ⟨r0, hr0, hf⟩ := List.mem_map.1 hrow''
       by_cases hc : r0.app = app ∧ s.listeners app r0.id ≠ []
       · rw [if_pos hc] at hf
         subst hf
         exact absurd hlt hold
       · rw [if_neg hc] at hf
         subst hf
-        have hrk : (row.app, row.id) ∈ s.db.mbKeys := Chan.mem_mbKeys.2 ⟨row, hr0, rfl, rfl⟩
+        have hrk : (r0.app, r0.id) ∈ s.db.mbKeys := Chan.mem_mbKeys.2 ⟨r0, hr0, rfl, rfl⟩
         have := hu.eq hk hrk hid
         subst this
         simp only
         apply hok
-        by_contra hne
-        exact hc ⟨happ, hne⟩
+        by_cases hne : s.listeners app r0.id = []
+        · rw [happ]; exact hne
+        · exact absurd ⟨happ, hne⟩ hc
     split
     · split
       · exact a3.commit.ucommit
@@ -132,8 +136,7 @@ theorem AllDb.expire {s : Sys} (a : AllDb W P s) (hP : Chan.DelClosed ok P) (hu 
   apply AllDb.dumpStats
   split
   · exact a.emit.emit
-  · have hlt : now - Generated.expirationTicks < now := by
-      have := expirationTicks_pos; omega
+  · have hlt : now - Generated.expirationTicks < now := Int.sub_lt_self now expirationTicks_pos
     have h1 := AllDb.pruneApps hP hlt ((s.emit (.fired now (now - Generated.expirationTicks))).allApps)
       (s := s.emit (.fired now (now - Generated.expirationTicks))) a.emit hu hok
     split <;> rename_i heq <;> rw [heq] at h1
@@ -141,6 +144,337 @@ theorem AllDb.expire {s : Sys} (a : AllDb W P s) (hP : Chan.DelClosed ok P) (hu 
     · exact h1.emit
 
 end sweep
+
+/-! ### the handlers of server_websocket.py -/
+
+/-- no condition on the deleted rows -/
+abbrev anyOk : String → String → Prop := fun _ _ => True
+
+section handlers
+variable {W : Prop} {P : Chan → Prop} {s : Sys} {x : Conn}
+
+theorem AllDb.handlePing (a : AllDb W P s) {c v} : AllDb W P (s.handlePing c v) := by
+  unfold Sys.handlePing
+  split
+  · exact a.sendError
+  · exact a.send
+
+theorem AllDb.handleBind (a : AllDb W P s) {t app side impl version} :
+    AllDb W P (s.handleBind x t app side impl version) := by
+  unfold Sys.handleBind
+  split
+  · exact a.sendError
+  · split
+    · exact a.sendError
+    · split
+      · exact a.sendError
+      · exact a.updConn.logClientVersion
+
+theorem AllDb.handleList (a : AllDb W P s) {app} : AllDb W P (s.handleList x app) := a.send
+
+theorem AllDb.handleAllocate (a : AllDb W P s) (hP : Chan.GrowClosed P) {app side t pick draws fresh} :
+    AllDb W P (s.handleAllocate x app side t pick draws fresh) := by
+  unfold Sys.handleAllocate
+  split
+  · exact a.sendError
+  · split
+    · exact a.internalErr
+    · rename_i name _
+      have h := a.claimNameplate hP (app := app) (name := name) (side := side) (t := t) (fresh := fresh)
+      split <;> rename_i heq <;> rw [heq] at h
+      · exact h.updConn.send
+      · exact h.internalErr
+      · exact h.internalErr
+      · exact h.internalErr
+
+theorem AllDb.handleClaim (a : AllDb W P s) (hP : Chan.GrowClosed P) {app side t nameplate fresh} :
+    AllDb W P (s.handleClaim x app side t nameplate fresh) := by
+  unfold Sys.handleClaim
+  split
+  · exact a.sendError
+  · rename_i name
+    split
+    · exact a.sendError
+    · have h := (a.updConn (c := x.id)
+        (f := fun y => { y with didClaim := true, nameplateId := some name })).claimNameplate hP
+        (app := app) (name := name) (side := side) (t := t) (fresh := fresh)
+      simp only []
+      split <;> rename_i heq <;> rw [heq] at h
+      · exact h.send
+      · exact h.sendError
+      · exact h.sendError
+      · exact h.internalErr
+
+theorem AllDb.handleRelease (a : AllDb W P s) (hP : Chan.SameClosed P) {app side t n} :
+    AllDb W P (s.handleRelease x app side t n) := by
+  have hgo : ∀ name, AllDb W P
+      (match (s.updConn x.id (fun y => { y with didRelease := true })).releaseNameplate app name side t with
+        | (s1, true) => s1.send x.id .released
+        | (s1, false) => s1.internalErr x.id "IndexError") := by
+    intro name
+    have h := (a.updConn (c := x.id) (f := fun y => { y with didRelease := true })).releaseNameplate hP
+      (app := app) (name := name) (side := side) (t := t)
+    split <;> rename_i heq <;> rw [heq] at h
+    · exact h.send
+    · exact h.internalErr
+  unfold Sys.handleRelease
+  split
+  · exact a.sendError
+  · simp only []
+    split
+    · split
+      · exact a.sendError
+      · exact hgo _
+    · exact hgo _
+    · exact hgo _
+    · exact a.sendError
+
+theorem AllDb.replay (a : AllDb W P s) {c app mb} : AllDb W P (s.replay c app mb) := by
+  unfold Sys.replay
+  exact AllDb.foldl_send (fun _ => c) (fun (m : Message) => .message m.side m.phase m.body m.rx m.msgId) _ a
+
+theorem AllDb.handleOpen (a : AllDb W P s) (hP : Chan.GrowClosed P) {app side t mailbox} :
+    AllDb W P (s.handleOpen x app side t mailbox) := by
+  unfold Sys.handleOpen
+  split
+  · exact a.sendError
+  · split
+    · exact a.sendError
+    · rename_i mb
+      have h := (a.updConn (c := x.id) (f := fun y => { y with mailboxId := some mb })).openMailbox hP
+        (app := app) (mb := mb) (side := side) (t := t)
+      simp only []
+      split <;> rename_i heq <;> rw [heq] at h
+      · exact h.sendError
+      · exact h.internalErr
+      · exact h.updConn.replay
+
+theorem AllDb.handleClose {P2 : Chan → Prop} (a : AllDb W P s) (hP : Chan.GrowClosed P)
+    (hP2 : Chan.DelClosed anyOk P2) (h12 : ∀ d, P d → P2 d) {app side t m mood} :
+    AllDb W P2 (s.handleClose x app side t m mood) := by
+  have a' : AllDb W P2 s := a.mono h12
+  have hgo : ∀ mb, AllDb W P2
+      (match (match x.mailbox with
+          | some h => (s, OpenRes.ok, h)
+          | none =>
+            match s.openMailbox app mb side t with
+            | (s1, r) =>
+              (s1.updConn x.id (fun y => if r = .ok then { y with mailbox := some mb } else y), r, mb)
+          : Sys × OpenRes × String) with
+      | (s1, .crowded, _) => s1.sendError x.id "crowded"
+      | (s1, .integrity, _) => s1.internalErr x.id "IntegrityError"
+      | (s1, .ok, h) =>
+        match (s1.updConn x.id (fun y => { y with listening := false, didClose := true })).mailboxClose
+            app h side mood t with
+        | (s3, false) => s3.internalErr x.id "IndexError"
+        | (s3, true) => (s3.updConn x.id (fun y => { y with mailbox := none })).send x.id .closed) := by
+    intro mb
+    have hop : ∀ s1 r h, (match x.mailbox with
+          | some h => (s, OpenRes.ok, h)
+          | none =>
+            match s.openMailbox app mb side t with
+            | (s1, r) =>
+              (s1.updConn x.id (fun y => if r = .ok then { y with mailbox := some mb } else y), r, mb)
+          : Sys × OpenRes × String) = (s1, r, h) → AllDb W P2 s1 := by
+      intro s1 r h heq
+      split at heq
+      · cases heq; exact a'
+      · split at heq
+        rename_i s1' r' hom
+        cases heq
+        have := a.openMailbox hP (app := app) (mb := mb) (side := side) (t := t)
+        rw [hom] at this
+        exact (this.mono h12).updConn
+    split <;> rename_i heq <;> have h := hop _ _ _ heq
+    · exact h.sendError
+    · exact h.internalErr
+    · rename_i _ s1 hh
+      have hc := (h.updConn (c := x.id) (f := fun y => { y with listening := false, didClose := true })).mailboxClose
+        hP2 (mb := hh) (fun _ => trivial) (app := app) (side := side) (mood := mood) (t := t)
+      split <;> rename_i heq2 <;> rw [heq2] at hc
+      · exact hc.internalErr
+      · exact hc.updConn.send
+  unfold Sys.handleClose
+  split
+  · exact a'.sendError
+  · simp only []
+    split
+    · split
+      · exact a'.sendError
+      · exact hgo _
+    · exact hgo _
+    · exact hgo _
+    · exact a'.sendError
+
+/-- an accepted `add`, as an equation -/
+theorem onMessage_add {c : Nat} {t : Time} {id : Val} {app mb : String} {ph bd : Val}
+    (hx : s.findConn c = some x) (ha : x.app = some app) (hm : x.mailbox = some mb) :
+    s.onMessage c t id (.add (some ph) (some bd)) =
+      ((s.send c (.ack id)).addMessage app mb (x.side.getD "") ph bd t id).broadcast app mb
+        (.message (x.side.getD "") ph bd t id) := by
+  simp [Sys.onMessage, hx, ha, Sys.handleAdd, hm]
+
+/-- every command other than an accepted `add` -/
+theorem AllDb.onMessage {P2 : Chan → Prop} (a : AllDb W P s) (hP : Chan.GrowClosed P)
+    (hP2 : Chan.DelClosed anyOk P2) (h12 : ∀ d, P d → P2 d) {c : Nat} {t : Time} {id : Val} {cmd : Cmd}
+    (hna : ∀ x, s.findConn c = some x → ∀ ph bd, cmd = .add (some ph) (some bd) →
+      x.app = none ∨ x.mailbox = none) :
+    AllDb W P2 (s.onMessage c t id cmd) := by
+  have a' : AllDb W P2 s := a.mono h12
+  unfold Sys.onMessage
+  split
+  · exact a'
+  · rename_i x hx
+    split
+    · exact a'.sendError
+    · simp only []
+      split
+      · exact a'.send.handlePing
+      · exact a'.send.handleBind
+      · split
+        · exact a'.send.sendError
+        · rename_i app happ
+          split
+          · exact a'.send.handleList
+          · exact (a.send.handleAllocate hP).mono h12
+          · exact (a.send.handleClaim hP).mono h12
+          · exact (a.send.handleRelease hP.same).mono h12
+          · exact (a.send.handleOpen hP).mono h12
+          · rename_i ph bd
+            unfold Sys.handleAdd
+            split
+            · exact a'.send.sendError
+            · rename_i mb hm
+              split
+              · exact a'.send.sendError
+              · split
+                · exact a'.send.sendError
+                · rcases hna x hx _ _ rfl with h | h
+                  · rw [h] at happ; cases happ
+                  · rw [h] at hm; cases hm
+          · exact a.send.handleClose hP hP2 h12
+          · exact a'.send.sendError
+
+end handlers
+
+/-! ### a fold of sends -/
+
+section fold
+variable {α : Type} (g : α → Nat) (fr : α → Frame)
+
+theorem foldl_send_spec (l : List α) : ∀ (s : Sys),
+    let s' := l.foldl (fun s a => s.send (g a) (fr a)) s
+    s'.db = s.db ∧ s'.disk = s.disk ∧ s'.udb = s.udb ∧ s'.udisk = s.udisk ∧ s'.snaps = s.snaps ∧
+    s'.conns = s.conns ∧ s'.cfg = s.cfg ∧ s'.rebooted = s.rebooted ∧
+    s'.out = s.out ++ l.map (fun a => .frame (g a) (fr a) s.synced) := by
+  induction l with
+  | nil => intro s; simp
+  | cons a l ih =>
+    intro s
+    obtain ⟨h1, h2, h3, h4, h5, h6, h7, h8, h9⟩ := ih (s.send (g a) (fr a))
+    refine ⟨h1, h2, h3, h4, h5, h6, h7, h8, ?_⟩
+    have hsy : (s.send (g a) (fr a)).synced = s.synced := rfl
+    simp only [List.foldl_cons, h9, hsy]
+    simp [Sys.send, Sys.emit]
+
+end fold
+
+/-! ### whole steps -/
+
+/-- the operation a (possibly crashing) operation executes -/
+def _root_.Wormhole.Op.plain : Op → Op
+  | .crashIn _ op => op
+  | op => op
+
+/-- the row an accepted `add` stores: `some` exactly when the (plain) operation is an `add` with
+    phase and body on an existing connection that is bound and holds a mailbox handle -/
+def addRowOf (s : Sys) : Op → Option Message
+  | .recv c t id (.add (some ph) (some bd)) =>
+    match s.findConn c with
+    | some x =>
+      match x.app, x.mailbox with
+      | some a, some m => some ⟨a, m, x.side.getD "", ph.toText, bd.toText, t, id.toText⟩
+      | _, _ => none
+    | none => none
+  | _ => none
+
+/-- the condition the rows deleted by `op` satisfy: a sweep only deletes mailboxes without listener -/
+def okOf (s : Sys) : Op → String → String → Prop
+  | .sweep _ _ => fun a m => s.listeners a m = []
+  | _ => fun _ _ => True
+
+theorem AllDb.start {P : Chan → Prop} {s : Sys} (hs : s.Synced) (h : P s.db) :
+    AllDb True P ({ s with out := [], snaps := [] } : Sys) :=
+  ⟨h, fun _ => ⟨by rw [show ({ s with out := [], snaps := [] } : Sys).disk = s.disk from rfl, ← hs.1]; exact h,
+    by simp⟩⟩
+
+theorem AllDb.of_eq {W : Prop} {P : Chan → Prop} {s s' : Sys} (a : AllDb W P s) (h1 : s'.db = s.db)
+    (h2 : s'.disk = s.disk) (h3 : s'.snaps = s.snaps) : AllDb W P s' :=
+  ⟨h1 ▸ a.db, fun w => ⟨h2 ▸ (a.rest w).1, h3 ▸ (a.rest w).2⟩⟩
+
+/-- every plain operation other than an accepted `add`: the live database, the committed one and
+    every crash point arise from the initial database by first adding mailbox rows, then deleting
+    mailbox rows together with their messages -/
+theorem stepPlain_tr {s : Sys} (hs : s.Synced) (hu : s.db.UniqIds) (op : Op)
+    (hna : addRowOf s op = none) :
+    AllDb True (Chan.Tr (okOf s op) s.db) (({ s with out := [], snaps := [] } : Sys).stepPlain op) := by
+  have a0 : AllDb True (Chan.Grow s.db) ({ s with out := [], snaps := [] } : Sys) :=
+    AllDb.start hs (Chan.Grow.refl _)
+  cases op with
+  | connect c => exact (a0.mono fun d h => Chan.Tr.of_grow h).of_eq rfl rfl rfl
+  | drop c => exact (a0.mono fun d h => Chan.Tr.of_grow h).of_eq rfl rfl rfl
+  | restart t =>
+    exact ⟨Chan.Tr.of_grow (a0.rest trivial).1, fun w => ⟨Chan.Tr.of_grow (a0.rest w).1,
+      by simp [Sys.stepPlain, Sys.restart]⟩⟩
+  | crashIn k op' => exact a0.mono fun d h => Chan.Tr.of_grow h
+  | sweep now fault =>
+    have a1 : AllDb True (Chan.Tr (okOf s (.sweep now fault)) s.db) ({ s with out := [], snaps := [] } : Sys) :=
+      a0.mono fun d h => Chan.Tr.of_grow h
+    exact a1.expire (Chan.delClosed_tr _ _) hu (fun a' m h => h)
+  | recv c t id cmd =>
+    refine a0.onMessage (Chan.growClosed_grow _) (Chan.delClosed_tr anyOk s.db)
+      (fun d h => Chan.Tr.of_grow h) ?_
+    intro x hx ph bd hcmd
+    subst hcmd
+    have hx' : s.findConn c = some x := hx
+    simp only [addRowOf, hx'] at hna
+    cases ha : x.app with
+    | none => exact .inl rfl
+    | some a =>
+      cases hm : x.mailbox with
+      | none => exact .inr rfl
+      | some m => simp [ha, hm] at hna
+
+/-- the database a step leaves is one of: the live database of the executed operation, its
+    committed database, one of its crash points, or (crash before the first commit) the
+    committed database it started from -/
+theorem step_db_cases (s : Sys) (op : Op) :
+    let s1 := ({ s with out := [], snaps := [] } : Sys).stepPlain op.plain
+    (s.step op).db = s1.db ∨ (s.step op).db = s1.disk ∨ (∃ p ∈ s1.snaps, (s.step op).db = p.1) ∨
+      (s.step op).db = s.disk := by
+  cases op with
+  | crashIn k op' =>
+    simp only [Sys.step, Op.plain]
+    cases k with
+    | zero => exact .inr (.inr (.inr rfl))
+    | succ k =>
+      cases h : (({ s with out := [], snaps := [] } : Sys).stepPlain op').snaps[k + 1 - 1]? with
+      | none => exact .inr (.inl (by simp [Sys.crashTo]))
+      | some p =>
+        refine .inr (.inr (.inl ⟨p, List.mem_of_getElem? h, ?_⟩))
+        simp [Sys.crashTo]
+  | _ => exact .inl rfl
+
+/-- **every step other than an accepted `add`** (crashes included, whatever the crash point) -/
+theorem step_tr {s : Sys} (hs : s.Synced) (hu : s.db.UniqIds) (op : Op)
+    (hna : addRowOf s op.plain = none) :
+    Chan.Tr (okOf s op.plain) s.db (s.step op).db := by
+  have a := stepPlain_tr hs hu op.plain hna
+  rcases step_db_cases s op with h | h | ⟨p, hp, h⟩ | h
+  · rw [h]; exact a.db
+  · rw [h]; exact (a.rest trivial).1
+  · rw [h]; exact (a.rest trivial).2 p hp
+  · rw [h, ← hs.1]; exact Chan.Tr.of_grow (Chan.Grow.refl _)
 
 end Sys
 end Wormhole
